@@ -17,7 +17,9 @@ RULE = (
     "of the caller's data around fit and around every apply call; generated interleavings (<= 6 "
     "calls) of apply-type methods (incl. in-sample forecasts) must return equal results for equal "
     "arguments; equal parameters + random_state on equal data give equal outputs; n_jobs in "
-    "{None, 1, 2, 4} under the threading backend give equal outputs; pickle round trip. "
+    "{None, 1, 2, 4} under the threading backend give equal outputs (own sub-check on panels with "
+    "tied member accuracies and noisy test instances); pickle round trip; series transformers "
+    "are also applied to a later stretch at any phase offset. "
     "non-trivial = NaN/outlier present, or n_jobs > 1, or a randomised estimator, or an "
     "interleaving with >= 3 calls; distinct = distinct JSON of the case"
 )
